@@ -259,15 +259,14 @@ _PAR = {}
 
 
 def _worker(args):
-    prefixes, max_paths, budget, max_steps = args
+    prefixes, max_paths, deadline, max_steps = args
     run_path = _PAR["run_path"]
     st = Stats()
     violations, unsupported = [], []
-    t0 = time.time()
     shared = {}
     stack = list(prefixes)
     while stack:
-        if st.paths >= max_paths or (budget and time.time() - t0 > budget):
+        if st.paths >= max_paths or (deadline and time.time() > deadline):
             st.truncated = True
             break
         prefix = stack.pop()
@@ -342,7 +341,7 @@ def explore_parallel(run_path, max_paths=20000, time_budget=None, max_steps=4000
     _PAR["run_path"] = run_path
     items = list(queue)
     chunks = [[x] for x in items]
-    left = (time_budget - (time.time() - t0)) if time_budget else None
+    left = (t0 + time_budget) if time_budget else None
     ctx = mp.get_context("fork")
     with ctx.Pool(workers) as pool:
         res = list(pool.imap_unordered(_worker, [(c, max_paths, left, max_steps) for c in chunks], chunksize=1))
